@@ -319,20 +319,22 @@ Proof. intros Hr HN Hnw Hd H.
   pose proof (sl_mono r (nw - (- N) * r) (nw + d) Hr ltac:(lia)) as Hs. rewrite sl_shift in Hs by lia. zcases. Qed.
 
 (* ---------- the component: ghost logs of the three counters ---------- *)
-Record ghost := { g0 : log; ga : log; gb : log }.
-Definition gnil : ghost := {| g0 := []; ga := []; gb := [] |}.
+Record ghost := { g0 : log; ga : log; gb : log; gs : log }.
+Definition gnil : ghost := {| g0 := []; ga := []; gb := []; gs := [] |}.
 
 (* Inc/IncA/IncB append (now, v) to the log of their counter, the two Append operations (now, amount appended);
    Reset empties it *)
 Definition glog (r : Z) (s : st) (h : ghost) (o : op) : ghost :=
   match o with
-  | Inc v => {| g0 := (now s, v) :: g0 h; ga := ga h; gb := gb h |}
-  | Reset => {| g0 := []; ga := ga h; gb := gb h |}
-  | IncA v => {| g0 := g0 h; ga := (now s, v) :: ga h; gb := gb h |}
-  | IncB v => {| g0 := g0 h; ga := ga h; gb := (now s, v) :: gb h |}
-  | RReset => {| g0 := g0 h; ga := []; gb := [] |}
-  | Append _ | AppendClone => {| g0 := (now s, appended r s o) :: g0 h; ga := ga h; gb := gb h |}
-  | Count | Tick _ | Ratio => h
+  | Inc v => {| g0 := (now s, v) :: g0 h; ga := ga h; gb := gb h; gs := gs h |}
+  | Reset => {| g0 := []; ga := ga h; gb := gb h; gs := gs h |}
+  | IncA v => {| g0 := g0 h; ga := (now s, v) :: ga h; gb := gb h; gs := gs h |}
+  | IncB v => {| g0 := g0 h; ga := ga h; gb := (now s, v) :: gb h; gs := gs h |}
+  | RReset => {| g0 := g0 h; ga := []; gb := []; gs := gs h |}
+  | Append _ | AppendClone => {| g0 := (now s, appended r s o) :: g0 h; ga := ga h; gb := gb h; gs := gs h |}
+  | TakeClone => {| g0 := g0 h; ga := ga h; gb := gb h; gs := g0 h |}    (* the snapshot holds what the counter holds *)
+  | SnapInc v => {| g0 := g0 h; ga := ga h; gb := gb h; gs := (now s, v) :: gs h |}
+  | Count | Tick _ | Ratio | SnapCount => h
   end.
 
 Fixpoint gexec (r : Z) (s : st) (h : ghost) (ops : list op) : st * ghost :=
@@ -347,36 +349,34 @@ Proof. induction ops as [|o rest IH]; intros s h; cbn; [reflexivity|apply IH]. Q
 
 Definition ticks_nonneg (ops : list op) : Prop := forall d, In (Tick d) ops -> 0 <= d.
 Definition incs_nonneg (ops : list op) : Prop :=
-  forall v, In (Inc v) ops \/ In (IncA v) ops \/ In (IncB v) ops \/ In (Append v) ops -> 0 <= v.
+  forall v, In (Inc v) ops \/ In (IncA v) ops \/ In (IncB v) ops \/ In (Append v) ops \/ In (SnapInc v) ops -> 0 <= v.
 
 Definition SInv (r N : Z) (s : st) (h : ghost) : Prop :=
   N * r <= now s /\
-  CInv r N (now s) (c0 s) (g0 h) /\ CInv r N (now s) (ca s) (ga h) /\ CInv r N (now s) (cb s) (gb h).
+  CInv r N (now s) (c0 s) (g0 h) /\ CInv r N (now s) (ca s) (ga h) /\ CInv r N (now s) (cb s) (gb h) /\
+  CInv r N (now s) (cs s) (gs h).
 
 Lemma SInv_init r N start : 0 < r -> 0 < N -> N * r <= start -> SInv r N (init N start) gnil.
 Proof. intros Hr HN Hs. assert (0 <= start) by nia.
-  refine (conj _ (conj _ (conj _ _))); [exact Hs| | |]; apply CInv_new; assumption. Qed.
+  refine (conj _ (conj _ (conj _ (conj _ _)))); [exact Hs| | | |]; apply CInv_new; assumption. Qed.
+
+(* the copy made by Clone() holds what the (cleaned) original holds *)
+Lemma CInv_clone r N nw c l : 0 < r -> 0 < N -> N * r <= nw -> CInv r N nw c l -> CInv r N nw (snd (clone r nw c)) l.
+Proof. intros Hr HN Hnw H.
+  pose proof (CInv_cleanup r N nw c l Hr HN Hnw H) as (Hlen & Hlu & Hl & kc & Hkc & Hv).
+  unfold clone. cbn [snd]. unfold CInv. cbn [values lastUpdated]. split; [exact Hlen|]. split; [exact Hlu|]. split; [exact Hl|].
+  exists kc. split; assumption. Qed.
 
 Lemma SInv_step r N s h o : 0 < r -> 0 < N -> (forall d, o = Tick d -> 0 <= d) ->
   SInv r N s h -> SInv r N (fst (step r s o)) (glog r s h o).
-Proof. intros Hr HN Hd (Hnw & H0 & Ha & Hb). assert (0 <= now s) by nia.
-  destruct o; cbn [step glog fst count now c0 ca cb g0 ga gb]; unfold SInv; cbn [now c0 ca cb g0 ga gb];
-    refine (conj _ (conj _ (conj _ _))); try assumption.
-  - apply CInv_inc; assumption.
-  - apply CInv_cleanup; assumption.
-  - specialize (Hd d eq_refl). lia.
-  - apply CInv_tick; [assumption|apply Hd; reflexivity|assumption].
-  - apply CInv_tick; [assumption|apply Hd; reflexivity|assumption].
-  - apply CInv_tick; [assumption|apply Hd; reflexivity|assumption].
-  - eapply CInv_reset; eassumption.
-  - apply CInv_inc; assumption.
-  - apply CInv_inc; assumption.
-  - apply CInv_cleanup; assumption.
-  - apply CInv_cleanup; assumption.
-  - eapply CInv_reset; eassumption.
-  - eapply CInv_reset; eassumption.
-  - apply CInv_inc; assumption.
-  - apply CInv_inc; try assumption. apply CInv_cleanup; assumption. Qed.
+Proof. intros Hr HN Hd (Hnw & H0 & Ha & Hb & Hsn). assert (0 <= now s) by nia.
+  destruct o; cbn [step glog fst snd count clone now c0 ca cb cs g0 ga gb gs]; unfold SInv; cbn [now c0 ca cb cs g0 ga gb gs];
+    refine (conj _ (conj _ (conj _ (conj _ _)))); try assumption;
+    try (apply CInv_inc; assumption); try (apply CInv_cleanup; assumption); try (eapply CInv_reset; eassumption);
+    try (apply CInv_tick; [assumption|apply Hd; reflexivity|assumption]);
+    try (specialize (Hd _ eq_refl); lia);
+    try (unfold append; apply CInv_inc; try assumption; apply CInv_cleanup; assumption);
+    try (apply (CInv_clone r N (now s) (c0 s) (g0 h)); assumption). Qed.
 
 Lemma SInv_gexec r N ops : 0 < r -> 0 < N -> forall s h s' h', ticks_nonneg ops ->
   SInv r N s h -> gexec r s h ops = (s', h') -> SInv r N s' h'.
@@ -385,7 +385,7 @@ Proof. intros Hr HN. induction ops as [|o rest IH]; intros s h s' h' Ht Hi E; cb
   - intros d Hin. apply Ht. right; exact Hin.
   - apply SInv_step; try assumption. intros d ->. apply Ht. left; reflexivity. Qed.
 
-Definition GNonneg (h : ghost) : Prop := nonneg (g0 h) /\ nonneg (ga h) /\ nonneg (gb h).
+Definition GNonneg (h : ghost) : Prop := nonneg (g0 h) /\ nonneg (ga h) /\ nonneg (gb h) /\ nonneg (gs h).
 
 Lemma nonneg_cons t v l : 0 <= v -> nonneg l -> nonneg ((t, v) :: l).
 Proof. intros Hv Hl e [<-|He]; [exact Hv|apply Hl, He]. Qed.
@@ -407,17 +407,14 @@ Proof. intros Hr HN Hnw Hlen. rewrite Hlen. assert (0 <= nw) by nia.
 (* Append of the counter's own Clone adds exactly its current window count *)
 Lemma appended_clone r N nw c l : 0 < r -> 0 < N -> N * r <= nw -> CInv r N nw c l ->
   snd (count r nw (snd (clone r nw c))) = sumif (inwin r N (sl r nw)) l.
-Proof. intros Hr HN Hnw H. apply count_window; try assumption.
-  pose proof (CInv_cleanup r N nw c l Hr HN Hnw H) as (Hlen & Hlu & Hl & kc & Hkc & Hv).
-  unfold clone. cbn [snd]. unfold CInv. cbn [values lastUpdated]. split; [exact Hlen|]. split; [exact Hlu|]. split; [exact Hl|].
-  exists kc. split; assumption. Qed.
+Proof. intros Hr HN Hnw H. apply count_window; try assumption. apply CInv_clone; assumption. Qed.
 
 Lemma GNonneg_step r N s h o : 0 < r -> 0 < N -> SInv r N s h -> GNonneg h ->
-  (forall v, o = Inc v \/ o = IncA v \/ o = IncB v \/ o = Append v -> 0 <= v) -> GNonneg (glog r s h o).
-Proof. intros Hr HN (Hnw & H0 & _) (G0 & Ga & Gb) Hv.
-  destruct o; cbn [glog]; unfold GNonneg; cbn [g0 ga gb]; repeat split; try assumption; try apply nonneg_nil;
-    apply nonneg_cons; try assumption; try (apply Hv; auto; fail).
-  - cbn [appended]. rewrite (appended_fresh r N) by (try assumption; apply H0). apply Hv; auto.
+  (forall v, o = Inc v \/ o = IncA v \/ o = IncB v \/ o = Append v \/ o = SnapInc v -> 0 <= v) -> GNonneg (glog r s h o).
+Proof. intros Hr HN (Hnw & H0 & _) (G0 & Ga & Gb & Gs) Hv.
+  destruct o; cbn [glog]; unfold GNonneg; cbn [g0 ga gb gs]; repeat split; try assumption; try apply nonneg_nil;
+    apply nonneg_cons; try assumption; try (apply Hv; auto 6; fail).
+  - cbn [appended]. rewrite (appended_fresh r N) by (try assumption; apply H0). apply Hv; auto 6.
   - cbn [appended]. rewrite (appended_clone r N _ _ (g0 h)) by assumption. apply sumif_nonneg; assumption. Qed.
 
 Lemma GNonneg_gexec r N ops : 0 < r -> 0 < N -> forall s h s' h', ticks_nonneg ops -> incs_nonneg ops ->
@@ -439,11 +436,11 @@ Section Reach.
   Lemma reach_SInv : SInv r N s h.
   Proof. eapply SInv_gexec; try exact Hrun; try lia; try exact Hticks. apply SInv_init; lia. Qed.
 
-  Definition counters : list (counter * log) := [(c0 s, g0 h); (ca s, ga h); (cb s, gb h)].
+  Definition counters : list (counter * log) := [(c0 s, g0 h); (ca s, ga h); (cb s, gb h); (cs s, gs h)].
 
   Lemma reach_CInv c l : In (c, l) counters -> CInv r N (now s) c l.
-  Proof. destruct reach_SInv as (_ & H0 & Ha & Hb). unfold counters.
-    intros [E|[E|[E|[]]]]; inv E; assumption. Qed.
+  Proof. destruct reach_SInv as (_ & H0 & Ha & Hb & Hsn). unfold counters.
+    intros [E|[E|[E|[E|[]]]]]; inv E; assumption. Qed.
 
   Lemma reach_inv c l b : In (c, l) counters -> 0 <= b < N ->
     exists j, (sl r (now s) - N < j <= sl r (now s) /\ j mod N = b) /\
@@ -467,7 +464,7 @@ Section Reach.
     assert (Hg : GNonneg h).
     { eapply (GNonneg_gexec r N); [lia|lia|exact Hticks|exact Hnn| | |exact Hrun]; [apply SInv_init; lia|repeat split; apply nonneg_nil]. }
     apply count_bounds; try lia; [apply reach_CInv, Hin|].
-    destruct Hg as (G0 & Ga & Gb). destruct Hin as [E|[E|[E|[]]]]; inv E; assumption. Qed.
+    destruct Hg as (G0 & Ga & Gb & Gs). destruct Hin as [E|[E|[E|[E|[]]]]]; inv E; assumption. Qed.
 
   Lemma reach_count_obs : snd (step r s Count) = [snd (count r (now s) (c0 s)); countedBuckets (c0 s)].
   Proof. reflexivity. Qed.
